@@ -141,7 +141,7 @@ Definition kids_loop (env' : list frame) (elems : list fchild) :=
                         (fun _ => DTypeNotFound)
         | Some (FAny _) => DOther
         | Some (FE dc _ _) =>
-            dbind (dec env' (resolve_tref S kinds (e_name dc) (e_type dc)) (decl_nillable dc) k) (fun cval =>
+            dbind (dec env' (resolve_tref S kinds (e_name dc) (e_type dc)) (decl_nillable kinds dc) k) (fun cval =>
             go r (store_child (reserved (e_nm k)) (e_multi dc) cval data))
         end
     end.
@@ -544,12 +544,11 @@ Proof.
       destruct (uri_is u uri_xsd) eqn:Exsd.
       - apply uri_is_true in Exsd. subst u. rewrite xsd_is_w3.
         destruct (sfind tl builtin_names) as [k|] eqn:Ek; [|discriminate].
-        destruct dt as [k0|dct]; [|discriminate].
-        destruct (N.eqb k k0) eqn:Ekk; [|discriminate]. inversion Ha; subst.
+        destruct (builtin_sub k dt); [|discriminate]. inversion Ha; subst.
         split; [cbn; eapply builtin_names_in_table; eauto|reflexivity].
       - destruct (find_type S (uid uris u, nid names tl)) as [ct|] eqn:Ef; [|discriminate].
-        destruct dt as [k0|dct]; [discriminate|].
-        destruct (derives S ct dct); [|discriminate]. inversion Ha; subst.
+        destruct (match dt with RC dct => derives S ct dct | RB k0 => N.eqb k0 b_anyType end); [|discriminate].
+        inversion Ha; subst.
         split; [eapply find_type_ok; eauto|].
         assert (Hw : match u with
                      | Some us => if starts_with s_w3 us then sfind tl builtin_names else None
@@ -728,7 +727,7 @@ Proof.
     destruct (find_decl_get_child _ _ _ _ _ Hct Efd) as [a [c Hgc]].
     destruct (find_decl_name _ _ _ _ Efd) as [_ Hn0].
     cbn [kids_loop]. rewrite <- Hnm, Hgc. rewrite Ert.
-    rewrite (HPk env' kt (e_nil d) (decl_nillable d) ik v (resolve_tref_ok _ _ _ Ert) Ek Hdk Hf2 Erf).
+    rewrite (HPk env' kt (e_nil d) (decl_nillable kinds d) ik v (resolve_tref_ok _ _ _ Ert) Ek Hdk Hf2 Erf).
     cbn [dbind]. rewrite (reserved_id _ Hn0).
     rewrite (store_spec _ _ _ _ _ Est).
     + apply (IH ir acc' (before ++ [ik]) fields HPr eq_refl Hdr Hf3); [|exact Hr].
